@@ -115,10 +115,15 @@ def run(F, R, tier):
             if e[0] == "bin" and e[1] in ("Ge", "Gt", "Lt", "Le"):
                 a = {q.base_name(o[1]).rsplit("::", 1)[-1] if o[0] == "call" else (o[1] or "").rsplit("::", 1)[-1] if o[0] == "const" else o[0] for o in B.origins(e[2])}
                 b = {q.base_name(o[1]).rsplit("::", 1)[-1] if o[0] == "call" else (o[1] or "").rsplit("::", 1)[-1] if o[0] == "const" else o[0] for o in B.origins(e[3])}
+                # the overflow edge is the one on which get_size() >= MAX_MESSAGE_SIZE, however the comparison is spelled
                 if "get_size" in a and "MAX_MESSAGE_SIZE" in b and e[1] == "Ge":
                     size_tests.append((sb, tr, fa))
+                elif "get_size" in a and "MAX_MESSAGE_SIZE" in b and e[1] == "Lt":
+                    size_tests.append((sb, fa, tr))
                 elif "get_size" in b and "MAX_MESSAGE_SIZE" in a and e[1] == "Le":
                     size_tests.append((sb, tr, fa))
+                elif "get_size" in b and "MAX_MESSAGE_SIZE" in a and e[1] == "Gt":
+                    size_tests.append((sb, fa, tr))
         ok = len(add) == 1 and len(send) == 1 and len(size_tests) == 1 and len(rem) == 1
         if ok:
             sb, tr, fa = size_tests[0]
@@ -132,10 +137,11 @@ def run(F, R, tier):
             cnt = []
             for sb2 in B.switch_blocks():
                 e2, tr2, fa2 = B.truth_edges(sb2)
-                if e2[0] == "bin" and e2[1] in ("Eq", "Ne"):
+                if e2[0] == "bin" and e2[1] in ("Eq", "Ne", "Gt"):
                     a = {q.base_name(o[1]).rsplit("::", 1)[-1] for o in B.origins(e2[2]) if o[0] == "call"}
                     zero = e2[3]["k"] == "const" and e2[3].get("val") == 0
                     if "event_count" in a and zero:
+                        # == 0 / != 0 / > 0
                         empty_edge, nonempty_edge = (tr2, fa2) if e2[1] == "Eq" else (fa2, tr2)
                         cnt.append((sb2, empty_edge, nonempty_edge))
             okc = len(cnt) == 1 and len(push) == 1
